@@ -161,7 +161,7 @@ func (a *dummyAccount) Address() wallet.Address {
 }
 
 func (a *dummyAccount) SignData([]byte) ([]byte, error) {
-	panic("dummy")
+	return nil, errors.New("the hub of a virtual channel cannot sign for its participants")
 }
 
 const hubIndex = 0 // The hub's index in a virtual channel machine.
